@@ -308,6 +308,9 @@ let spec_case scale k ops out =
          behind it) changed after the call *)
       if String.length res > 1 && res.[String.length res - 1] = '!' && res.[0] <> 'P' then
         fail n p "the callee wrote to its argument: the operand list / item slice / argument map differs from what was handed in" else
+      (* round 6: "<" behind a result: values were left in the single-use sequence handed to Range *)
+      if String.length res > 1 && res.[String.length res - 1] = '<' && res.[0] <> 'P' then
+        fail n p "the callee stopped ranging over its sequence argument before the end: values were left in the single-use source" else
       let v a = let i = int_of' (nth_arg p a) in if i < 0 || i >= k then raise Bad_syntax else i in
       let l a = ints_of' (nth_arg p a) in
       let lnil a = if nth_arg p a = "nil" then [] else l a in
